@@ -254,8 +254,8 @@ class _Cols(list):
 
 
 class _GroupBy:
-    def __init__(self, df, by, as_index=True):
-        self.df, self.by, self.as_index = df, ([by] if isinstance(by, str) else list(by)), as_index
+    def __init__(self, df, by, as_index=True, sort=True):
+        self.df, self.by, self.as_index, self.sort = df, ([by] if isinstance(by, str) else list(by)), as_index, sort
 
     def _groups(self):
         keys, rows = [], []
@@ -269,6 +269,8 @@ class _GroupBy:
             else:
                 keys.append(k)
                 rows.append([r])
+        if not self.sort:
+            return list(zip(keys, rows))      # sort=False: groups in order of first appearance
         order = stable_sort(list(range(len(keys))), key=lambda i: keys[i])
         return [(keys[i], rows[i]) for i in order]
 
@@ -417,8 +419,8 @@ class DataFrame:
     def to_numpy(self, *a, **k):
         return self.values
 
-    def groupby(self, by, as_index=True):
-        return _GroupBy(self, by, as_index)
+    def groupby(self, by, as_index=True, sort=True):
+        return _GroupBy(self, by, as_index, sort)
 
     def reset_index(self, drop=False):
         d = self.copy()
